@@ -1,8 +1,8 @@
 PROP = dict(
     harness="c08", level="exploration",
     make=["build/bin/c08", "build/gen/x86_forms.txt"],
-    quick=dict(cases=110000, max_size=60, workers=16),
-    thorough=dict(cases=1800000, max_size=80, workers=16, timeout=7200),
+    quick=dict(cases=200000, max_size=60, workers=16),
+    thorough=dict(cases=5000000, max_size=80, workers=16, timeout=7200),
     rule=("rapidcheck sequences of emitter calls (x86-32 / x86-64: ISA-DB forms instantiated by gen/x86inst.h incl. lock/rep/xacquire, {k}{z}{er}{sae}, extra register, "
           "random option bits, inline comments, plus hand-written label shapes jmp/jcc/call/loop/lea/mov/AVX-512 [label]; AArch64: 66 register/immediate/shift/extend/"
           "load-store/vector shapes with 0..6 operands plus b/bl/b.cond/cbz/tbz/adr/adrp/ldr-literal), labels (anonymous, named, duplicates), bind, align, embed, "
